@@ -76,12 +76,14 @@ func preScaleC01(t *testing.T) {
 			if (unit-1)%nshards != shard {
 				continue
 			}
-			c := C01Case{Blocks: scaleHistory(n), Maps: maps}
-			res := safeRun(runC01, c)
-			done++
-			if res.Err != nil {
-				rec.fail(res.Err.Error(), caseJSON(c), false)
-				t.Fatalf("scale probe (n=%d): %v", n, res.Err)
+			for _, hist := range [][]Block{scaleHistory(n), emptyTreeHistory(n)} {
+				c := C01Case{Blocks: hist, Maps: maps}
+				res := safeRun(runC01, c)
+				done++
+				if res.Err != nil {
+					rec.fail(res.Err.Error(), caseJSON(c), false)
+					t.Fatalf("scale probe (n=%d): %v", n, res.Err)
+				}
 			}
 		}
 	}
@@ -248,6 +250,10 @@ func preScaleC07(t *testing.T) {
 	sizes := probeSizes([]int{1 << 9, 1 << 12}, []int{1 << 10, 1 << 12, 1 << 14})
 	scaleUnits(sizes, t, func(n int) (*Result, []byte) {
 		c := C07Case{Blocks: scaleHistoryRem(n), High: 1 << 40}
+		if res := safeRun(runC07, c); res.Err != nil {
+			return res, caseJSON(c)
+		}
+		c = C07Case{Blocks: emptyTreeHistory(n), High: 1 << 36}
 		return safeRun(runC07, c), caseJSON(c)
 	})
 	rec.extra("scale_probes", fmt.Sprintf("deterministic history on %v leaves with a sparse remembered set (blocks of up to n/2 deletions), also embedded behind 2^40 opaque leaves", sizes))
@@ -345,6 +351,10 @@ func preScaleC11(t *testing.T) {
 	sizes := probeSizes([]int{1 << 9, 1 << 12}, []int{1 << 10, 1 << 13, 1 << 15})
 	scaleUnits(sizes, t, func(n int) (*Result, []byte) {
 		c := C11Case{Blocks: scaleHistory(n), High: 1 << 45}
+		if res := safeRun(runC11, c); res.Err != nil {
+			return res, caseJSON(c)
+		}
+		c = C11Case{Blocks: emptyTreeHistory(n), High: 1 << 45}
 		return safeRun(runC11, c), caseJSON(c)
 	})
 	rec.extra("scale_probes", fmt.Sprintf("deterministic history on %v leaves (blocks with thousands of deletions and additions), also embedded behind 2^45 opaque leaves", sizes))
@@ -352,7 +362,7 @@ func preScaleC11(t *testing.T) {
 
 // preScaleC17: the scale history with guarded slices, every second block applied, undone and re-applied.
 func preScaleC17(t *testing.T) {
-	sizes := probeSizes([]int{1 << 9, 1 << 11}, []int{1 << 10, 1 << 12, 1 << 13})
+	sizes := probeSizes([]int{1 << 9, 1 << 11}, []int{1 << 10, 1 << 12, 1 << 14})
 	scaleUnits(sizes, t, func(n int) (*Result, []byte) {
 		bs := scaleHistoryRem(n)
 		c := C17Case{Maps: []Cfg{{Kind: "map", Full: true, Rows: 0}, {Kind: "map", Rows: 63}}}
@@ -443,4 +453,24 @@ func preScaleC09(t *testing.T) {
 		return safeRun(runC09, c), caseJSON(c)
 	})
 	rec.extra("scale_probes", fmt.Sprintf("partial forest through the scale history on %v leaves: Verify(remember) of 300 leaves, blocks emptying subtrees of 9+ rows, one Prune call for most of the cache, two undos; sandwich invariant after every step", sizes))
+}
+
+// emptyTreeHistory: two trees (n and n/2 leaves); the whole n/2-leaf tree is emptied; a later block
+// adds n/2+40 leaves, so the empty root (row log2(n/2)) is written over only after n/2 additions of
+// that block; then some of the new leaves are spent. n must be a power of two >= 64.
+func emptyTreeHistory(n int) []Block {
+	var bs []Block
+	bs = append(bs, Block{Add: n + n/2, Rem: []int{0, 7, n - 1, n + 1}, DM: "none", AM: "scale"})
+	var d []int
+	for k := 0; k < n/2; k++ {
+		d = append(d, n+(k*37)%(n/2)) // 37 is odd: a permutation of the n/2 slots
+	}
+	bs = append(bs, Block{Del: d, DM: "scale-whole-tree", AM: "0"})
+	bs = append(bs, Block{Add: n/2 + 40, Rem: []int{0, 1, n / 4, n/2 + 39}, DM: "none", AM: "scale-overwrite"})
+	d = nil
+	for s2 := n + n/2; s2 < 2*n+40; s2 += 3 {
+		d = append(d, s2)
+	}
+	bs = append(bs, Block{Del: d, Add: 3, Rem: []int{2}, DM: "scale-third", AM: "3"})
+	return bs
 }
